@@ -22,7 +22,10 @@ for d in /verif/seeded/C*/ /verif/seeded/own-*/; do
   git apply $d/patch.diff || { echo "$sid APPLY-FAILED" >> $out; continue; }
   (cd $mx/mc && cargo build --release --offline > $mx/build.log 2>&1) || { echo "$sid BUILD-FAILED" >> $out; git checkout -q -- .; continue; }
   line="$sid"
-  for id in C01 C02 C03 C04 C05 C06 C07 C08 C09 C10 C11 C12 C13 C14 C15 C16 C17 C18 C19 C20; do
+  ids="C01 C02 C03 C04 C05 C06 C07 C08 C09 C10 C11 C12 C13 C14 C15 C16 C17 C18 C19 C20"
+  # ONLY_OWN=1: the diagonal only (the check of the property the seed was written against)
+  if [ -n "$ONLY_OWN" ]; then ids=$(echo $sid | sed 's/^own-//' | cut -c1-3); fi
+  for id in $ids; do
     $mx/target/release/bppmc check $id --tier quick > $mx/last.log 2>&1; code=$?
     line="$line $id=$code"
   done
